@@ -7,7 +7,7 @@ for f in glob.glob('/tmp/seed2/frozen_C*.out'):
         if m:
             fro[m.group(2)] = m.group(3)
 FROZEN4 = {"C02-7": "missed (C03.D5 fired, none under C02)", "C02-8": "missed (C11.D4 fired, none under C02)", "C04-7": "detected", "C04-8": "missed", "C07-7": "missed", "C08-7": "missed", "C08-8": "missed", "C09-7": "detected", "C09-8": "detected", "C17-7": "missed", "C17-8": "missed"}
-FROZEN5 = {}
+FROZEN5 = {"C03-9": "missed", "C03-10": "missed", "C06-9": "missed", "C06-10": "detected", "C12-9": "detected", "C12-10": "missed", "C14-9": "missed", "C14-10": "missed", "C16-9": "missed", "C16-10": "missed", "C19-9": "detected"}
 FROZEN3 = "C01-6 C03-5 C03-6 C05-6 C06-5 C06-6 C10-5 C11-6 C14-6 C15-5 C16-5 C18-6 C19-5 C19-6 C20-6".split()
 out = ["# Seeded changes and which check catches them", "",
        "One line per seeded change kept in this directory. `frozen` = verdict of the rules as they stood *before* the change was looked at",
